@@ -1,9 +1,10 @@
 import PilotaModel.Thrift.Binary
 import PilotaModel.Thrift.Compact
+import PilotaModel.Thrift.Skip
 /-
   The `TInputProtocol` surface an emitted decoder uses, as a record of functions over an
   abstract reader state, and its two instances (binary / LE: the remaining bytes;
-  compact: reader state × remaining bytes).  `skip` is the protocol's own skipper.
+  compact: reader state × remaining bytes).  `skip` is the protocol's own skipper (models in Thrift/Skip.lean).
 -/
 namespace Pilota.TGen
 open Pilota Pilota.Thrift
@@ -29,106 +30,6 @@ structure Rd (σ : Type) where
 def mapOut {α β} (f : α → β) : Out α → Out β
   | .ok a => .ok (f a) | .err k => .err k | .panic m => .panic m | .fuel => .fuel
 
-/-! ### the default recursive skipper of `TInputProtocol` (thrift/mod.rs), binary widths -/
-
-mutual
-def skipBin (e : Endian) : Nat → Option Nat → TType → Bytes → Out Bytes
-  | 0, _, _, _ => .fuel
-  | _, some 0, _, _ => .err .depth
-  | f+1, d, t, bs =>
-    let d' := d.map (· - 1)
-    match t with
-    | .bool | .i8 => mapOut (·.2) (Binary.takeN 1 bs)
-    | .i16 => mapOut (·.2) (Binary.takeN 2 bs)
-    | .i32 => mapOut (·.2) (Binary.takeN 4 bs)
-    | .i64 | .double => mapOut (·.2) (Binary.takeN 8 bs)
-    | .uuid => mapOut (·.2) (Binary.takeN 16 bs)
-    | .binary => match Binary.readI e 4 bs with
-      | .ok (len, r) => mapOut (·.2) (Binary.takeN (Binary.asUsize len) r)
-      | .err k => .err k | .panic m => .panic m | .fuel => .fuel
-    | .struct => skipBinFields e f d' bs
-    | .list | .set => match Binary.readListBegin e bs with
-      | .ok ((et, n), r) => skipBinN e f d' et n r
-      | .err k => .err k | .panic m => .panic m | .fuel => .fuel
-    | .map => match Binary.readMapBegin e bs with
-      | .ok ((kt, vt, n), r) => skipBinPairs e f d' kt vt n r
-      | .err k => .err k | .panic m => .panic m | .fuel => .fuel
-    | .stop | .void => .err .depth      -- "cannot skip field type" is reported as DepthLimit
-def skipBinFields (e : Endian) : Nat → Option Nat → Bytes → Out Bytes
-  | 0, _, _ => .fuel
-  | f+1, d, bs => match Binary.readFieldBegin e bs with
-    | .ok ((t, _), r) =>
-      if t = .stop then .ok r
-      else match skipBin e f d t r with
-        | .ok r => skipBinFields e f d r
-        | .err k => .err k | .panic m => .panic m | .fuel => .fuel
-    | .err k => .err k | .panic m => .panic m | .fuel => .fuel
-def skipBinN (e : Endian) : Nat → Option Nat → TType → Nat → Bytes → Out Bytes
-  | 0, _, _, _, _ => .fuel
-  | _+1, _, _, 0, bs => .ok bs
-  | f+1, d, et, n+1, bs => match skipBin e f d et bs with
-    | .ok r => skipBinN e f d et n r
-    | .err k => .err k | .panic m => .panic m | .fuel => .fuel
-def skipBinPairs (e : Endian) : Nat → Option Nat → TType → TType → Nat → Bytes → Out Bytes
-  | 0, _, _, _, _, _ => .fuel
-  | _+1, _, _, _, 0, bs => .ok bs
-  | f+1, d, kt, vt, n+1, bs => match skipBin e f d kt bs with
-    | .ok r => match skipBin e f d vt r with
-      | .ok r => skipBinPairs e f d kt vt n r
-      | .err k => .err k | .panic m => .panic m | .fuel => .fuel
-    | .err k => .err k | .panic m => .panic m | .fuel => .fuel
-end
-
--- compact: `TCompactInputProtocol::skip_till_depth` reads and discards.
-mutual
-def skipCmp : Nat → Nat → TType → Compact.CR → Bytes → Out (Compact.CR × Bytes)
-  | 0, _, _, _, _ => .fuel
-  | _, 0, _, _, _ => .err .depth
-  | f+1, d+1, t, s, bs =>
-    match t with
-    | .bool => mapOut (·.2) (Compact.readBool s bs)
-    | .i8 => mapOut (fun x => (s, x.2)) (Binary.readI .be 1 bs)
-    | .i16 => mapOut (fun x => (s, x.2)) (readVarS 2 bs)
-    | .i32 => mapOut (fun x => (s, x.2)) (readVarS 4 bs)
-    | .i64 => mapOut (fun x => (s, x.2)) (readVarS 8 bs)
-    | .double => mapOut (fun x => (s, x.2)) (Binary.takeN 8 bs)
-    | .binary => mapOut (fun x => (s, x.2)) (Compact.readBytes bs)
-    | .uuid => mapOut (fun x => (s, x.2)) (Binary.takeN 16 bs)
-    | .struct => match skipCmpFields f d (Compact.readStructBegin s) bs with
-      | .ok (s, r) => mapOut (fun s => (s, r)) (Compact.readStructEnd s)
-      | .err k => .err k | .panic m => .panic m | .fuel => .fuel
-    | .list | .set => match Compact.readCollBegin bs with
-      | .ok ((et, n), r) => skipCmpN f d et n s r
-      | .err k => .err k | .panic m => .panic m | .fuel => .fuel
-    | .map => match Compact.readMapBegin bs with
-      | .ok ((kt, vt, n), r) => skipCmpPairs f d kt vt n s r
-      | .err k => .err k | .panic m => .panic m | .fuel => .fuel
-    | .stop | .void => .err .depth
-def skipCmpFields : Nat → Nat → Compact.CR → Bytes → Out (Compact.CR × Bytes)
-  | 0, _, _, _ => .fuel
-  | f+1, d, s, bs => match Compact.readFieldBegin s bs with
-    | .ok ((t, _), s, r) =>
-      if t = .stop then .ok (s, r)
-      else match skipCmp f d t s r with
-        | .ok (s, r) => skipCmpFields f d s r
-        | .err k => .err k | .panic m => .panic m | .fuel => .fuel
-    | .err k => .err k | .panic m => .panic m | .fuel => .fuel
-def skipCmpN : Nat → Nat → TType → Nat → Compact.CR → Bytes → Out (Compact.CR × Bytes)
-  | 0, _, _, _, _, _ => .fuel
-  | _+1, _, _, 0, s, bs => .ok (s, bs)
-  | f+1, d, et, n+1, s, bs => match skipCmp f d et s bs with
-    | .ok (s, r) => skipCmpN f d et n s r
-    | .err k => .err k | .panic m => .panic m | .fuel => .fuel
-def skipCmpPairs : Nat → Nat → TType → TType → Nat → Compact.CR → Bytes → Out (Compact.CR × Bytes)
-  | 0, _, _, _, _, _, _ => .fuel
-  | _+1, _, _, _, 0, s, bs => .ok (s, bs)
-  | f+1, d, kt, vt, n+1, s, bs => match skipCmp f d kt s bs with
-    | .ok (s, r) => match skipCmp f d vt s r with
-      | .ok (s, r) => skipCmpPairs f d kt vt n s r
-      | .err k => .err k | .panic m => .panic m | .fuel => .fuel
-    | .err k => .err k | .panic m => .panic m | .fuel => .fuel
-end
-
 def skipDepth : Nat := 64
 
 /-- binary / LE; `depth := none` is the unchecked codec's iterative skipper (no depth limit). -/
@@ -147,7 +48,9 @@ def binRd (e : Endian) (depth : Option Nat) : Rd Bytes where
   readUuid := Binary.takeN 16
   listBegin := Binary.readListBegin e
   mapBegin := Binary.readMapBegin e
-  skip t bs := skipBin e (3 * bs.length + 3) depth t bs
+  skip t bs := match depth with
+    | some dpt => mapOut (·.2) (Skip.skip e (dpt : Int) t bs)          -- TInputProtocol::skip_till_depth (thrift/mod.rs)
+    | none => mapOut (·.2) (Skip.iterSkip t bs)                         -- the unchecked reader's iterative skipper
 
 def cmpRd : Rd (Compact.CR × Bytes) where
   remaining s := s.2.length
@@ -164,6 +67,6 @@ def cmpRd : Rd (Compact.CR × Bytes) where
   readUuid s := mapOut (fun x => (x.1, s.1, x.2)) (Binary.takeN 16 s.2)
   listBegin s := mapOut (fun x => (x.1, s.1, x.2)) (Compact.readCollBegin s.2)
   mapBegin s := mapOut (fun x => (x.1, s.1, x.2)) (Compact.readMapBegin s.2)
-  skip t s := skipCmp (3 * s.2.length + 3) skipDepth t s.1 s.2
+  skip t s := mapOut (fun x => (x.2.1, x.2.2)) (Skip.cskip (skipDepth : Int) t s.1 s.2)   -- TCompactInputProtocol::skip_till_depth
 
 end Pilota.TGen
